@@ -269,19 +269,25 @@ class UnifiedRTFEncoder(EncodingStrategy):
         show_footnote_on_all = document.rtf_page.page_footnote == "all"
         show_source_on_all = document.rtf_page.page_source == "all"
 
-        # Build
+        # Build (preamble laid out line by line like the table encoders, which
+        # assemble_rtf relies on to skip the header of non-first inputs)
         parts = [
-            self.encoding_service.encode_document_start(),
-            self.encoding_service.encode_font_table(),
-            self.encoding_service.encode_color_table(document),
-            "\n",
-            self.encoding_service.encode_page_header(
-                document.rtf_page_header, method="line"
-            ),
-            self.encoding_service.encode_page_footer(
-                document.rtf_page_footer, method="line"
-            ),
-            self.encoding_service.encode_page_settings(document.rtf_page),
+            "\n".join(
+                [
+                    self.encoding_service.encode_document_start(),
+                    self.encoding_service.encode_font_table(),
+                    self.encoding_service.encode_color_table(document),
+                    "\n",
+                    self.encoding_service.encode_page_header(
+                        document.rtf_page_header, method="line"
+                    ),
+                    self.encoding_service.encode_page_footer(
+                        document.rtf_page_footer, method="line"
+                    ),
+                    self.encoding_service.encode_page_settings(document.rtf_page),
+                ]
+            )
+            + "\n"
         ]
 
         for i in range(num):
